@@ -4,6 +4,9 @@ import (
 	"context"
 	"encoding/json"
 	"fmt"
+	"github.com/yorkie-team/yorkie/client"
+	"github.com/yorkie-team/yorkie/pkg/document"
+	"github.com/yorkie-team/yorkie/pkg/document/crdt"
 	"math/rand"
 	"sync"
 	"sync/atomic"
@@ -59,7 +62,7 @@ func (c17) NumCases(tier string, _ int64) int {
 }
 func (c17) Exhaustive(string) bool { return false }
 func (c17) Floors(string) []runner.Floor {
-	return []runner.Floor{{Stat: "publish_subscription_pairs_judged", Min: 1500}, {Stat: "events_received", Min: 2000}, {Stat: "stalled_subscriptions", Min: 30}, {Stat: "watch_pushes_judged", Min: 40}}
+	return []runner.Floor{{Stat: "publish_subscription_pairs_judged", Min: 1500}, {Stat: "events_received", Min: 2000}, {Stat: "stalled_subscriptions", Min: 30}, {Stat: "watch_pushes_judged", Min: 40}, {Stat: "sdk_realtime_deliveries_judged", Min: 30}}
 }
 
 type c17Worker struct{ *simWorker }
@@ -434,11 +437,109 @@ func (w *c17Worker) runWatch(res *runner.CaseResult, idx int) {
 	}
 }
 
+// runSDKWatch: the whole notification path through the REAL client.Client in realtime mode:
+// an edit of one client has to show up in the documents of the others without anybody
+// calling Sync (push by the author's sync loop -> DocChanged -> the peers' watch loops ->
+// their sync loops pull). Peers' documents are read inside Update callbacks only (the
+// document's own lock), never next to their sync loop.
+func (w *c17Worker) runSDKWatch(res *runner.CaseResult, idx int) {
+	rng := caseRng(w.seed^0xc175d, idx)
+	proj, err := w.project(0)
+	if err != nil {
+		res.Inconclusive = err.Error()
+		return
+	}
+	ctx, cancel := context.WithTimeout(context.Background(), 3*gotime.Minute)
+	defer cancel()
+	dk := key.Key(fmt.Sprintf("c17sdk-%d-%d-%d", w.seed, idx, gotime.Now().UnixNano()%1000000000))
+	replay := map[string]any{"family": "sdk-watch", "seed": w.seed, "idx": idx}
+	n := 2 + rng.Intn(2)
+	type cl struct {
+		c *client.Client
+		d *document.Document
+	}
+	var cs []*cl
+	defer func() {
+		// no Detach here: the client's watch pump stops with the stream, after which nothing
+		// reads Document.Events() (buffer 1); a detach response that carries two presence
+		// changes of online peers then blocks ApplyChangePack for ever (observed; outside
+		// the properties, see DESIGN A.5). Deactivation detaches on the server side.
+		for _, x := range cs {
+			_ = x.c.Deactivate(ctx)
+			_ = x.c.Close()
+		}
+	}()
+	for i := 0; i < n; i++ {
+		c, err := client.Dial(w.env.Addr, client.WithAPIKey(proj.PublicKey), client.WithSyncLoopDuration(20*gotime.Millisecond))
+		if err != nil {
+			res.Inconclusive = "dial: " + err.Error()
+			return
+		}
+		if err := c.Activate(ctx); err != nil {
+			res.Inconclusive = "activate: " + err.Error()
+			_ = c.Close()
+			return
+		}
+		d := document.New(dk)
+		if err := c.Attach(ctx, d, client.WithRealtimeSync()); err != nil {
+			res.Violate("request-failed", "attach (realtime): "+err.Error(), "", replay)
+			_ = c.Close()
+			return
+		}
+		cs = append(cs, &cl{c, d})
+	}
+	read := func(x *cl, k string) string {
+		v := ""
+		_ = x.d.Update(func(root *yjson.Object, _ *presence.Presence) error {
+			if p, ok := root.Get(k).(*crdt.Primitive); ok {
+				v = fmt.Sprint(p.Value())
+			}
+			return nil
+		})
+		return v
+	}
+	pushes := 3 + rng.Intn(4)
+	for k := 0; k < pushes; k++ {
+		ai := rng.Intn(n)
+		a := cs[ai]
+		field, val := fmt.Sprintf("c%d", ai), fmt.Sprintf("c%d-%d", ai, k)
+		if err := a.d.Update(func(root *yjson.Object, _ *presence.Presence) error {
+			root.SetString(field, val)
+			return nil
+		}); err != nil {
+			res.Violate("request-failed", "update: "+err.Error(), "", replay)
+			return
+		}
+		for pi, p := range cs {
+			if pi == ai {
+				continue
+			}
+			res.AddStat("sdk_realtime_deliveries_judged", 1)
+			ok := false
+			for try := 0; try < 100 && !ok; try++ {
+				if ok = read(p, field) == val; !ok {
+					gotime.Sleep(50 * gotime.Millisecond)
+				}
+			}
+			if !ok {
+				res.Violate("realtime-peer-not-updated", fmt.Sprintf("edit %d (%s=%q by client %d in realtime mode) did not reach client %d within 5 s although nobody is offline; it shows %q", k, field, val, ai, pi, read(p, field)), "", replay)
+				return
+			}
+		}
+		gotime.Sleep(gotime.Duration(rng.Intn(120)) * gotime.Millisecond)
+	}
+	res.Hash = fmt.Sprintf("sdk-watch-%d-%d", w.seed, idx)
+	res.Nontrivial = true
+}
+
 func (w *c17Worker) Run(idx int) runner.CaseResult {
 	res := runner.CaseResult{Case: fmt.Sprintf("c17-%d", idx)}
-	if idx%4 == 3 {
+	switch {
+	case idx%8 == 5:
+		w.runSDKWatch(&res, idx)
+	case idx%4 == 3:
 		w.runWatch(&res, idx)
-	} else {
+	default:
 		w.runPubSub(&res, idx)
 	}
 	return res
@@ -455,7 +556,9 @@ func (w *c17Worker) Replay(data json.RawMessage) runner.CaseResult {
 	old := w.seed
 	w.seed = rp.Seed
 	defer func() { w.seed = old }()
-	if rp.Family == "watch" {
+	if rp.Family == "sdk-watch" {
+		w.runSDKWatch(&res, rp.Idx)
+	} else if rp.Family == "watch" {
 		w.runWatch(&res, rp.Idx)
 	} else {
 		w.runPubSub(&res, rp.Idx)
